@@ -7,6 +7,7 @@ mod exec;
 mod framework;
 mod gen;
 mod hashseed;
+mod logger;
 mod net;
 mod outcome;
 mod printer;
@@ -78,6 +79,7 @@ fn main() {
         usage();
     }
     outcome::install_quiet_panic_hook();
+    logger::install();
     if let Err(e) = hashseed::self_test() {
         eprintln!("harness error: {e}");
         std::process::exit(2);
